@@ -27,7 +27,12 @@ RULE = (
     "probes. Monitors: (state) content of the library's in-progress set after the faulted call equals its content before; "
     "(behaviour) every follow-up call produces exactly the model's fresh-process trace and verdict; (surfacing) the caller gets "
     "the injected exception itself or a wrapper chaining it via __cause__; (growth) after 3000 finished calls in one context (and in one "
-    "re-used context copy) the in-progress variable holds no more than 1000 entries - leftovers of finished calls must not accumulate; a repr fault of kind Exception may be absorbed by the "
+    "re-used context copy) the in-progress variable holds no more than 1000 entries - leftovers of finished calls must not accumulate; "
+    "(out-of-order end) a hand-driven suspended call of another object is closed / cancelled / finalised / completed inside a method "
+    "whose invariant is temporarily broken; (faulted __new__) constructions by __new__ alone that raise or cannot be bound; (line-level "
+    "interrupts) sys.monitoring LINE events in icontract/_checkers.py raise a BaseException before EVERY executed line outside "
+    "finally/except bodies of 16 fixed calls (function, async function, constructor, method, async method, property, __len__, SETATTR "
+    "class, __new__-only class; satisfied and violated), each followed by the state monitor and 13 follow-up calls; a repr fault of kind Exception may be absorbed by the "
     "repr machinery if the contract's own violation error is raised. Non-trivial = faulted run (each is a distinct (program, "
     "scenario, point, kind)); exhaustive over the points of the generated programs."
 )
@@ -620,13 +625,14 @@ class LineFault(BaseException):
     """Stands for an asynchronous interrupt (KeyboardInterrupt from a signal handler) delivered between two statements."""
 
 
-def _checker_code_and_cleanup_lines():
+def _checker_code_and_cleanup_lines(module_names=("icontract._checkers",)):
+    """Code objects of the given modules and, per file, the lines inside finally/except bodies."""
     import ast  # pylint: disable=import-outside-toplevel
+    import importlib  # pylint: disable=import-outside-toplevel
     import types  # pylint: disable=import-outside-toplevel
 
-    import icontract._checkers as chk  # pylint: disable=import-outside-toplevel
-
     seen = {}  # type: Dict[int, Any]
+    cleanup = set()  # (filename, lineno)
 
     def walk(code) -> None:
         if id(code) in seen:
@@ -636,23 +642,25 @@ def _checker_code_and_cleanup_lines():
             if isinstance(const, types.CodeType):
                 walk(const)
 
-    for val in list(vars(chk).values()):
-        if isinstance(val, types.FunctionType) and val.__code__.co_filename == chk.__file__:
-            walk(val.__code__)
-        elif isinstance(val, type) and val.__module__ == chk.__name__:
-            for member in vars(val).values():
-                if isinstance(member, types.FunctionType):
-                    walk(member.__code__)
-    cleanup = set()
-    with open(chk.__file__) as fid:
-        tree = ast.parse(fid.read())
-    for node in ast.walk(tree):
-        if isinstance(node, ast.Try):
-            stmts = list(node.finalbody)
-            for handler in node.handlers:
-                stmts.extend(handler.body)
-            for stmt in stmts:
-                cleanup.update(range(stmt.lineno, (stmt.end_lineno or stmt.lineno) + 1))
+    for modname in module_names:
+        mod = importlib.import_module(modname)
+        for val in list(vars(mod).values()):
+            if isinstance(val, types.FunctionType) and val.__code__.co_filename == mod.__file__:
+                walk(val.__code__)
+            elif isinstance(val, type) and val.__module__ == mod.__name__:
+                for member in vars(val).values():
+                    if isinstance(member, types.FunctionType):
+                        walk(member.__code__)
+        with open(mod.__file__) as fid:
+            tree = ast.parse(fid.read())
+        for node in ast.walk(tree):
+            if isinstance(node, ast.Try):
+                stmts = list(node.finalbody)
+                for handler in node.handlers:
+                    stmts.extend(handler.body)
+                for stmt in stmts:
+                    for lineno in range(stmt.lineno, (stmt.end_lineno or stmt.lineno) + 1):
+                        cleanup.add((mod.__file__, lineno))
     return list(seen.values()), cleanup
 
 
@@ -671,7 +679,9 @@ def run_line_faults(w) -> None:
     except ValueError:
         w.mark_inconclusive("sys.monitoring tool id {} is taken".format(tool))
         return
-    codes, cleanup = _checker_code_and_cleanup_lines()
+    # (thorough: interrupts inside the message building as well)
+    modules = ("icontract._checkers",) if w.tier == "quick" else ("icontract._checkers", "icontract._represent", "icontract._recompute")
+    codes, cleanup = _checker_code_and_cleanup_lines(modules)
     state = {"armed": False, "count": 0, "target": None, "at": None, "skipped": False}
 
     def on_line(code, lineno):
@@ -680,7 +690,7 @@ def run_line_faults(w) -> None:
         idx = state["count"]
         state["count"] = idx + 1
         if state["target"] is not None and idx == state["target"]:
-            if lineno in cleanup:
+            if (code.co_filename, lineno) in cleanup:
                 state["skipped"] = True
                 return
             state["at"] = (code.co_qualname, lineno)
